@@ -51,19 +51,41 @@ def callsite_assertions(X, ins, key, argv, argops):
     if c is None or not c.get('calls'):
         return
     for (ckey, lab, ast, txt) in c['calls']:
+        inloop = None
+        if '@L' in ckey:
+            # call <callee>@Lk ...: the clause applies to the call sites inside loop k only
+            ckey, lk_ = ckey.rsplit('@L', 1)
+            inloop = int(lk_)
         if ckey != key:
             continue
+        if inloop is not None:
+            lp_ = [l for l in X.cfg['loops'].values() if l['ordinal'] == inloop]
+            if not lp_ or X.block not in lp_[0]['body']:
+                continue
+        shown_ = ckey if inloop is None else '%s@L%d' % (ckey, inloop)
         names = X.resolve_names(X.block, upto_idx=X.cur_idx)
         env = X.spec_env(names)
         for i, (a, ao) in enumerate(zip(argv, argops)):
             if z3.is_expr(a):
                 env['a%d' % i] = SV(a, ao['type'])
         ev = SpecEval(X.V, X.pkg, env, X.heap, old=X.top_entry_heap())
-        ck = (ckey, lab)
+        # inside a loop: atHead(e) / lold(e) refer to the innermost (or the named) enclosing loop's current iteration
+        best_ = None
+        for h_, l_ in X.cfg['loops'].items():
+            if X.block in l_['body'] and h_ in getattr(X, 'loopstate', {}) and hasattr(X.loopstate[h_], 'head_heap'):
+                if inloop is not None and l_['ordinal'] != inloop:
+                    continue
+                if best_ is None or len(l_['body']) < len(X.cfg['loops'][best_]['body']):
+                    best_ = h_
+        if best_ is not None:
+            st_ = X.loopstate[best_]
+            ev.head = (st_.head_heap, st_.env_head)
+            ev.loop_old = (st_.entry_heap, st_.env_entry)
+        ck = (shown_, lab)
         X.V.call_clause_seen = getattr(X.V, 'call_clause_seen', {})
         X.V.call_clause_seen.setdefault(ck, 0)
         try:
-            X.oblige('callsite', ev.boolean(ast), ins.get('pos', ''), label='%s.%s' % (key, lab or '0'), text=txt)
+            X.oblige('callsite', ev.boolean(ast), ins.get('pos', ''), label='%s.%s' % (shown_, lab or '0'), text=txt)
             X.V.call_clause_seen[ck] += 1
         except SpecError as e:
             # the clause names local variables that do not exist at this call site: it does not apply here
